@@ -41,7 +41,7 @@ def BrOK (c : Str) : Prop := (∀ x ∈ c, x ≠ ']') ∧ sliceLang c = true ∧
 def PiecesOK : PK → List Piece → Prop
   | _, [] => True
   | pk, .slash :: r => pk ≠ .slash ∧ PiecesOK .slash r
-  | pk, .seg s :: r => (pk = .start ∨ pk = .slash) ∧ s ≠ [] ∧ cleanB false s = true ∧ PiecesOK .seg r
+  | pk, .seg s :: r => (pk = .start ∨ pk = .slash) ∧ s ≠ [] ∧ cleanB r.isEmpty s = true ∧ PiecesOK .seg r
   | _, .br c :: r => BrOK c ∧ PiecesOK .br r
 
 /-- the text after a name run or a bracket token starts with `/` or `[`, or is empty -/
@@ -123,23 +123,39 @@ theorem scan_pieces : ∀ (ps : List Piece) (prev : Option Char) (pk : PK), Piec
     cases s with
     | nil => exact absurd rfl hne
     | cons c t =>
-      have hstop := piecesText_stop .seg (Or.inl rfl) r hrest
-      simp only [piecesText, List.flatMap_cons, Piece.text, List.cons_append, List.map_cons, Piece.raw]
-      rw [scan_cons]
-      have := scanStep_seg false prev c t (piecesText r) hc hstop (fun h => by cases h)
-      simp only [piecesText] at this
-      rw [this]
-      simp only [List.drop_left', Option.toList, List.singleton_append]
-      congr 1
-      have hprev : (some ((c :: (t ++ List.flatMap Piece.text r)).getD t.length c)) ≠ some '\\' := by
-        rw [getD_last]
-        have hl := clean_getLast _ (c :: t) (Nat.le_refl _) hc
-        cases hg : (c :: t).getLast? with
-        | none => simp at hg
-        | some x =>
-          rw [hg] at hl
-          simpa using hl
-      exact scan_pieces r _ .seg hrest hprev
+      by_cases hr : r = []
+      · -- the last piece: nothing follows, a lone trailing backslash is harmless
+        subst hr
+        simp only [List.isEmpty_nil] at hc
+        simp only [piecesText, List.flatMap_cons, List.flatMap_nil, Piece.text, List.append_nil, List.map_cons,
+          List.map_nil, Piece.raw]
+        rw [scan_cons]
+        have := scanStep_seg true prev c t [] hc (Or.inl rfl) (fun _ => rfl)
+        simp only [List.append_nil] at this
+        rw [this]
+        simp [scan]
+      · have he : r.isEmpty = false := by
+          cases r with
+          | nil => exact absurd rfl hr
+          | cons _ _ => rfl
+        rw [he] at hc
+        have hstop := piecesText_stop .seg (Or.inl rfl) r hrest
+        simp only [piecesText, List.flatMap_cons, Piece.text, List.cons_append, List.map_cons, Piece.raw]
+        rw [scan_cons]
+        have := scanStep_seg false prev c t (piecesText r) hc hstop (fun h => by cases h)
+        simp only [piecesText] at this
+        rw [this]
+        simp only [List.drop_left', Option.toList, List.singleton_append]
+        congr 1
+        have hprev : (some ((c :: (t ++ List.flatMap Piece.text r)).getD t.length c)) ≠ some '\\' := by
+          rw [getD_last]
+          have hl := clean_getLast _ (c :: t) (Nat.le_refl _) hc
+          cases hg : (c :: t).getLast? with
+          | none => simp at hg
+          | some x =>
+            rw [hg] at hl
+            simpa using hl
+        exact scan_pieces r _ .seg hrest hprev
   | .br c :: r, prev, pk, hok, hp => by
     simp only [PiecesOK] at hok
     obtain ⟨hb, hrest⟩ := hok
